@@ -270,6 +270,10 @@ class SimServerProxy:
         return p.world.rpc(p.inst, p.status.identifier, f'{ns}.{method}', args, proxy=p)
 
 
+class Runaway(Exception):
+    """ The execution is far longer than any scenario needs (e.g. a restart storm): it is cut, and reported as such. """
+
+
 class DeferredResult(dict):
     """ Record of a deferred XML-RPC answer (callee returned a callable polled from its main loop). """
 
@@ -618,6 +622,7 @@ class World:
         self.tmpdir = tempfile.mkdtemp(prefix='vsim_')
         self.rules_path = None
         self.rpc_seq = 0
+        self.max_steps = scenario.get('max_steps', 250000)
         self.restart_delay = sched.get('restart_delay', (0.5, 3.0))
         self.auto_reboot = scenario.get('auto_reboot', True)
         self.msg_filter = None   # callable(world, src_inst, dst_identifier, method, args) -> 'drop' | None
@@ -680,6 +685,8 @@ class World:
                 self.now = when
             fn(*args)
             self.steps += 1
+            if self.steps > self.max_steps:
+                raise Runaway(f'more than {self.max_steps} scheduler steps')
             if stop is not None and stop():
                 return True
         if t_end > self.now:
@@ -813,12 +820,14 @@ class World:
         return (src_nick, dst_nick) not in self.cut
 
     def cut_link(self, a, b, both=True):
+        self.cut_count = getattr(self, 'cut_count', 0) + 1
         self.cut.add((a, b))
         if both:
             self.cut.add((b, a))
         self.emit('cut', a=a, b=b, both=both)
 
     def heal_link(self, a, b, both=True):
+        self.cut_count = getattr(self, 'cut_count', 0) + 1
         self.cut.discard((a, b))
         if both:
             self.cut.discard((b, a))
